@@ -24,12 +24,13 @@ func init() { commands["auth"] = authCmd }
 
 // AuthInput: admission cases of spec/Auth.tla realised with real entries.
 type AuthInput struct {
-	Property string   `json:"property"` // C03 | C04
-	Seed     int64    `json:"seed"`
-	Lists    []string `json:"lists"`  // explicit | wildcard | empty | creator
-	Routes   []string `json:"routes"` // local | announce | exchange | manual | ancestor
-	Classes  []string `json:"classes"`
-	Stores   []string `json:"stores"` // kv | log | doc
+	FlipReuse bool     `json:"flip_reuse"` // swap which cases let the replica reuse one options value
+	Property  string   `json:"property"`   // C03 | C04
+	Seed      int64    `json:"seed"`
+	Lists     []string `json:"lists"`  // explicit | wildcard | empty | creator
+	Routes    []string `json:"routes"` // local | announce | exchange | manual | ancestor
+	Classes   []string `json:"classes"`
+	Stores    []string `json:"stores"` // kv | log | doc
 }
 
 type authEnv struct {
@@ -390,7 +391,7 @@ func authCmd(args []string) int {
 					viol := func(kind, detail string, exp, got interface{}) {
 						res.violate(Violation{Property: in.Property, Kind: kind, Behaviour: bid, Step: n, Detail: detail, Expected: exp, Got: got})
 					}
-					authReuseOptions = n%2 == 1
+					authReuseOptions = (n%2 == 1) != in.FlipReuse
 					a, err := newAuthEnv(fmt.Sprintf("c%d", n), list, stype)
 					if err != nil {
 						res.Inconclusive = append(res.Inconclusive, bid+": setup: "+err.Error())
@@ -606,7 +607,7 @@ func runTamper(in *AuthInput, res *Result) {
 				viol := func(kind, detail string) {
 					res.violate(Violation{Property: in.Property, Kind: kind, Behaviour: bid, Step: n, Detail: detail})
 				}
-				authReuseOptions = n%2 == 1
+				authReuseOptions = (n%2 == 1) != in.FlipReuse
 				a, err := newAuthEnv(fmt.Sprintf("t%d", n), "explicit", stype)
 				if err != nil {
 					res.Inconclusive = append(res.Inconclusive, bid+": setup: "+err.Error())
